@@ -27,7 +27,7 @@ META = {
                'metric': 'diagonal entries within +-20% of each other where the family leaves them free, off-diagonal cosines within +-0.25 (a diagonally dominant, hence positive definite, region)',
                'groups': 'the symmorphic representative of each Laue class and setting (all-zero reflection conditions; conditions are C05\'s subject)'},
     'outside_claim': ['lattice points outside the cube', 'metrics outside the stated region (needle-shaped cells)', 'numpy RNG values that are integer-dependent (genericity)'],
-    'stubs': ['tools.sintl -> sqrt(h.G*.h)/2 compared through squares (C01 lemma)', 'numpy.argsort -> identity (membership mode) or merge sort (order mode)',
+    'stubs': ['tools.sintl -> sqrt(h.G*.h)/2 compared through squares (C01 lemma)', 'numpy.argsort -> identity (membership mode); merge sort with solver-decided comparisons (order mode) for the cubic classes (thorough: also 4/mmm, 6/mmm)',
               'numpy.random.rand -> fixed generic values (genericity assumption for numpy.unique on random projections)'],
     'assumptions': ['C01 lemma: sintl^2 = h.G*.h/4', 'C04: rotations of the class preserve every metric of the family'],
 }
@@ -140,6 +140,7 @@ def run_unit(u, desc, tier, seed):
             pre.append(zc.cmp0(qform(G, h) * Fraction(1, 4) - Fraction(121, 100) * v('M'), '>'))
     ctx.pre = pre
     smt.INPROC = True           # linear real arithmetic only
+    order_mode = cls in (('m-3m', 'm-3') if tier == 'quick' else ('m-3m', 'm-3', '4/mmm', '6/mmm'))
     token = ['cell-token', None, None, None, 1.0, 2.0]      # unit_cell[4] != unit_cell[5] only feeds debug logging
     minS, maxS = Stl(v('m')), Stl(v('M'))
 
@@ -156,6 +157,15 @@ def run_unit(u, desc, tier, seed):
             out = np.zeros(a.shape, dtype=int)
             for col in range(a.shape[1] if a.ndim == 2 else 1):
                 out[:, col] = np.arange(a.shape[0])
+            if order_mode and a.ndim == 2 and a.shape[1] == 4 and a.shape[0] > 1:
+                # order mode: the column the code sorts on is really sorted (merge sort, comparisons are path decisions)
+                from .c18 import merge_argsort
+                for col in range(4):
+                    keys = list(a[:, col])
+                    if all(isinstance(k, Stl) for k in keys):
+                        out[:, col] = merge_argsort(keys)
+                    else:
+                        out[:, col] = np.argsort(np.array([float(k) for k in keys]), kind='stable')
             return out
 
         class random:
@@ -223,6 +233,11 @@ def run_unit(u, desc, tier, seed):
             orb_all |= orb
         cover = (orb_all == set(rows_a))
         key = 'C06/%s/%s' % (cls, modname)
+        if order_mode:
+            for nm_, Hx in (('unique', Hu), ('all', Ha)):
+                sq = [r[3].sq for r in np.asarray(Hx, dtype=object) if isinstance(r[3], Stl)]
+                goal_o = z3.And([zc.cmp0(sq[i + 1] - sq[i], '>=') for i in range(len(sq) - 1)]) if len(sq) > 1 else z3.BoolVal(True)
+                u.prove(key + '/%s:rows-sorted-by-sintl' % nm_, pre_l, goal_o, replay=rp, detail='path %d: %d rows of genhkl_%s non-decreasing in sin(theta)/lambda' % (li, len(sq), nm_), timeout=30)
         st1 = u.prove(key + '/all:no-repeats,col4,unique-inequivalent,orbits-cover', pre_l, z3.BoolVal(not dup and col4 and ineq and cover and not extra), replay=rp,
                       detail='path %d: %d rows in genhkl_all, %d in genhkl_unique (dup=%s col4=%s inequivalent=%s cover=%s extra=%s)' % (li, len(rows_a), len(rows_u), dup, col4, ineq, cover, extra[:2]),
                       sample=(li == 0))
